@@ -43,6 +43,7 @@ ASSUMPTIONS = [
 ]
 
 KEYS = ("plan_name", "plan_type", "k17")
+MARK = "c17_attempt"  # always given by open_run: '<case serial>.<run index>'
 P, I, O, K = 8, 4, 2, 1
 CHUNK = 96
 MAXV = 3
@@ -155,6 +156,8 @@ def _classes():
             persistent = {k: v for k, v in RE.md.items()}
             # open_run and RE(...) sources
             okw = [{key: f"O{n}.{r}:{key}" for key, mk in zip(KEYS, masks) if mk & O} for r in range(runs)]
+            for r in range(runs):
+                okw[r][MARK] = f"{n}.{r}"  # names the attempt for validator/normaliser, whatever they are called with
             kkw = {key: f"K{n}:{key}" for key, mk in zip(KEYS, masks) if mk & K}
             reject_at = (runs // 2) if val != "accept" else None  # 0-based attempt index
             catch = val != "reject-uncaught"
@@ -189,10 +192,9 @@ def _classes():
             vlog, nlog, raised = [], [], []
 
             def validator(md):
-                i = len(vlog)
                 vlog.append(dict(md))
-                if reject_at is not None and i == reject_at:
-                    e = Reject(f"case {n} attempt {i}")
+                if reject_at is not None and md.get(MARK) == f"{n}.{reject_at}":
+                    e = Reject(f"case {n} attempt {reject_at}")
                     raised.append(e)
                     raise e
 
@@ -263,15 +265,15 @@ def judge(case, res, track):
         if (res["outcome"], res["state_after"]) != ("return", "idle"):
             v("call-failed", f"val={val}", f"RE(...) {res['outcome']} {type(res['exc']).__name__}: {res['exc']} state {res['state_after']}")
     else:
-        if res["outcome"] != "raise" or not res["raised"] or res["exc"] is not res["raised"][0]:
+        if res["outcome"] != "raise" or not any(res["exc"] is e for e in res["raised"]):
             v("uncaught-rejection-not-raised", f"val={val}", f"RE(...) {res['outcome']} {type(res['exc']).__name__}: {res['exc']}; validator raised {res['raised']}")
         if res["state_after"] != "idle":
             v("not-idle-after-rejection", f"val={val}", f"state {res['state_after']}")
     if reject_at is not None:
-        if len(res["raised"]) != 1:
-            v("validator-not-consulted", f"val={val}", f"validator raised {len(res['raised'])} times, expected once (attempt {reject_at})")
+        if len(res["raised"]) < 1:
+            v("validator-not-consulted", f"val={val}", f"validator never saw attempt {reject_at}")
         elif catch:
-            if len(res["caught"]) != 1 or res["caught"][0][0] != reject_at or res["caught"][0][1] is not res["raised"][0]:
+            if len(res["caught"]) != 1 or res["caught"][0][0] != reject_at or not any(res["caught"][0][1] is e for e in res["raised"]):
                 v("rejection-not-at-yield", f"val={val}", f"plan caught {[(r, repr(e)) for r, e in res['caught']]}, validator raised {res['raised']} at attempt {reject_at}")
     elif res["caught"]:
         v("spurious-exception-at-open_run", f"val={val}", f"plan caught {[(r, repr(e)) for r, e in res['caught']]}")
@@ -285,9 +287,7 @@ def judge(case, res, track):
     if [r for r, _ in res["uids"]] != emitted_runs or [u for _, u in res["uids"]] != [d["uid"] for d in starts]:
         v("open_run-return", f"val={val}", f"open_run returned {res['uids']}, starts {[d['uid'] for d in starts]}")
     # ---- precedence, per attempt (validator input) and per emitted start
-    if len(res["vlog"]) != attempts:
-        v("validator-calls", f"val={val},runs={runs}", f"validator called {len(res['vlog'])} times for {attempts} open_run attempts")
-        return out
+    n = res["n"]
     expected_merged = []
     for r in range(attempts):
         m = dict(res["persistent"])
@@ -296,31 +296,40 @@ def judge(case, res, track):
         m.update(res["okw"][r])
         m.update(res["kkw"])
         expected_merged.append(m)
+
+    def renamed(d):
+        return {("norm_" + k if k in KEYS else k): x for k, x in d.items()}
+
     for r in range(attempts):
-        got = dict(res["vlog"][r])
-        got.pop("scan_id", None)
-        if got != expected_merged[r]:
-            diff = sorted(k for k in set(got) | set(expected_merged[r]) if got.get(k, "<absent>") != expected_merged[r].get(k, "<absent>"))
-            for k in diff:
-                v("precedence", f"key={k if k in KEYS else 'other'},mask={_key_mask(masks, k)},at=validator", f"attempt {r}: validator saw {k}={got.get(k, '<absent>')!r}, merged sources give {expected_merged[r].get(k, '<absent>')!r}")
-    if len(res["nlog"]) < len(emitted_runs):
-        v("normaliser-calls", f"norm={norm}", f"normaliser called {len(res['nlog'])} times for {len(emitted_runs)} emitted starts")
-        return out
-    # normaliser calls belonging to emitted starts: match by scan_id
+        calls = [md for md in res["vlog"] if md.get(MARK) == f"{n}.{r}"]
+        if not calls:
+            v("validator-not-consulted", f"val={val},runs={runs}", f"validator never saw attempt {r} ({len(res['vlog'])} calls in all)")
+        for got in calls:
+            got = dict(got)
+            got.pop("scan_id", None)
+            # the statement does not say whether the validator sees the metadata before or after normalisation
+            if got != expected_merged[r] and not (norm == "rename" and got == renamed(expected_merged[r])):
+                diff = sorted(k for k in set(got) | set(expected_merged[r]) if got.get(k, "<absent>") != expected_merged[r].get(k, "<absent>"))
+                for k in diff:
+                    v("precedence", f"key={k if k in KEYS else 'other'},mask={_key_mask(masks, k)},at=validator", f"attempt {r}: validator saw {k}={got.get(k, '<absent>')!r}, merged sources give {expected_merged[r].get(k, '<absent>')!r}")
+    stray = [md.get(MARK) for md in res["vlog"] if md.get(MARK) not in {f"{n}.{r}" for r in range(attempts)}]
+    if stray:
+        v("validator-foreign-attempt", f"val={val}", f"validator saw attempts {stray[:3]} which this call did not make")
     for r, doc in zip(emitted_runs, starts):
         exp = dict(expected_merged[r])
-        nl = [x for x in res["nlog"] if x[0].get("scan_id") == doc.get("scan_id")]
-        if len(nl) != 1:
-            v("normaliser-calls", f"norm={norm}", f"run {r}: {len(nl)} normaliser calls carry scan_id {doc.get('scan_id')}")
+        nl = [x for x in res["nlog"] if x[0].get(MARK) == f"{n}.{r}"]
+        if not nl:
+            v("normaliser-not-called", f"norm={norm}", f"run {r}: the normaliser never saw this open_run")
             continue
-        nin, nout = nl[0]
-        nin2 = dict(nin)
-        nin2.pop("scan_id", None)
-        if nin2 != exp:
-            for k in sorted(k for k in set(nin2) | set(exp) if nin2.get(k, "<absent>") != exp.get(k, "<absent>")):
-                v("precedence", f"key={k if k in KEYS else 'other'},mask={_key_mask(masks, k)},at=normaliser", f"run {r}: normaliser was given {k}={nin2.get(k, '<absent>')!r}, merged sources give {exp.get(k, '<absent>')!r}")
+        for nin, _nout in nl:
+            nin2 = dict(nin)
+            nin2.pop("scan_id", None)
+            if nin2 != exp:
+                for k in sorted(k for k in set(nin2) | set(exp) if nin2.get(k, "<absent>") != exp.get(k, "<absent>")):
+                    v("precedence", f"key={k if k in KEYS else 'other'},mask={_key_mask(masks, k)},at=normaliser", f"run {r}: normaliser was given {k}={nin2.get(k, '<absent>')!r}, merged sources give {exp.get(k, '<absent>')!r}")
+        nout = nl[-1][1]
         body = {k: x for k, x in doc.items() if k not in ("uid", "time")}
-        if body != nout:
+        if not any(body == x[1] for x in nl):
             for k in sorted(k for k in set(body) | set(nout) if body.get(k, "<absent>") != nout.get(k, "<absent>")):
                 v("start-differs-from-normaliser-output", f"key={k if k in KEYS or k.startswith('norm_') else 'other'},norm={norm}", f"run {r}: start has {k}={body.get(k, '<absent>')!r}, normaliser returned {nout.get(k, '<absent>')!r}")
         # the statement itself, directly on the document
